@@ -791,6 +791,9 @@ class StepResult(Generic[TSimulatorState], metaclass=abc.ABCMeta):
                     measured_qubits.append(q)
 
         # Perform whole-system sampling of the measured qubits.
+        # One generator for the sampling and for the confusion maps: an integer seed given to each
+        # of them separately would make the two use the same random numbers.
+        seed = value.parse_random_state(seed)
         indexed_sample = self.sample(measured_qubits, repetitions, seed=seed)
 
         # Extract results for each measurement.
